@@ -447,6 +447,26 @@ def _window_history_points(tier):
     return [(cfg, [list(c) for c in seq]) for cfg in cfgs for seq in itertools.product(calls, repeat=depth)]
 
 
+def _cs_large_point(pt, seed):
+    """large DFT sizes (index * shift products beyond 2^31): segment at the top of the spectrum,
+    shifts -1, 1, D-1, D+1, 3D+7 and a mid-range value, both copy settings"""
+    D, n, none = pt
+    start = D - n
+    viol = []
+    evals = 0
+    for shift in (-1, 1, D // 2 + 1, D - 1, D + 1, 3 * D + 7, -(2 * D + 5)):
+        for copy in (True, False):
+            evals += 1
+            v = _cs_case(seed, None if none else D, n, start, shift, copy, "complex128")
+            for x in v:
+                x["tags"]["large_dft"] = True
+            viol.extend(v)
+            if len(viol) > 4:
+                break
+    return core.result(viol, evals=evals, nontrivial_count=evals, obs=[D, len(viol) == 0],
+                       sample=dict(dft_size=D, segment=n, start_idx=start, default_dft=none))
+
+
 def subchecks(tier, seed):
     wmax = 4096 if tier == "quick" else 12288
     wchunk = 128
@@ -482,6 +502,15 @@ def subchecks(tier, seed):
             "integer shift -2D..2D x copy: ifft(pad(out)) = roll(ifft(pad(in)), shift) to 1e-12, input "
             "unchanged when copy; non-trivial = shift not a multiple of D" % dmax,
             axes=dict(dft_size=[1, dmax], dtype=CS_DTYPES, copy=[True, False]),
+            replay=lambda c: _cs_replay(c, seed)),
+        core.SubCheck(
+            "circshift_large", [(D, n, none) for D in ((46340, 46341, 46342, 48000, 65536, 100003) if tier == "quick"
+                                                       else (46340, 46341, 46342, 48000, 50000, 60000, 65536, 100003, 262147))
+                                for n in (1, 5) for none in (False, True)],
+            lambda p: _cs_large_point(p, seed),
+            "DFT sizes around and beyond 46341 (index x shift reaches 2^31), a segment at the top of the "
+            "spectrum, shifts {-1, 1, D/2+1, D-1, D+1, 3D+7, -(2D+5)} x copy, dft_size explicit or defaulted: "
+            "same shift-theorem oracle",
             replay=lambda c: _cs_replay(c, seed)),
         core.SubCheck(
             "circshift_default_dft", cs_none, lambda p: _cs_point(p, seed),
